@@ -21,7 +21,7 @@ int main(int argc, char** argv) { std::string pattern = "random"; long steps = 1
 	for (int i = 1; i + 1 < argc; ++i) { std::string a = argv[i], v = argv[i + 1]; if (a == "--pattern") pattern = v; else if (a == "--steps") steps = atol(v.c_str()); else if (a == "--table-every") every = atol(v.c_str()); else if (a == "--seed") seed = strtoull(v.c_str(), 0, 10); }
 	std::mt19937_64 rng(seed); AdaptiveHuffmanTree t(N); std::vector<std::vector<int>> P; std::cout << json{{"e", "Init"}}.dump() << "\n";
 	for (long k = 0; k < steps; ++k) { unsigned x;
-		if (pattern == "single") x = 65; else if (pattern == "lead") x = k < 33200 ? 5u : (unsigned)((k % 3 == 0) ? 5 : (7 * (k - 33200) + 7) % N);     // one symbol more than 2^15 counts ahead of every other, then the others else if (pattern == "fib") x = fib_symbol(k); else if (pattern == "roundrobin") x = (unsigned)(k % N); else if (pattern == "sawtooth") { long p = k % (2 * N - 2); x = (unsigned)(p < N ? p : 2 * N - 2 - p); } else { x = (unsigned)(rng() % 16 == 0 ? rng() % N : rng() % 7 * 40); }
+		if (pattern == "single") x = 65; else if (pattern == "lead") x = k < 33200 ? 5u : (unsigned)((k % 3 == 0) ? 5 : (7 * (k - 33200) + 7) % N);   /* "lead": one symbol more than 2^15 counts ahead of every other, then the others */ else if (pattern == "fib") x = fib_symbol(k); else if (pattern == "roundrobin") x = (unsigned)(k % N); else if (pattern == "sawtooth") { long p = k % (2 * N - 2); x = (unsigned)(p < N ? p : 2 * N - 2 - p); } else { x = (unsigned)(rng() % 16 == 0 ? rng() % N : rng() % 7 * 40); }
 		if (pattern == "random" && rng() % 997 == 0) { static const unsigned far[] = {65535u, 65534u, 65536u - (2 * N - 1), 65537u - (2 * N - 1), 32768u, 32767u, 1000u}; x = rng() % 2 ? N + (unsigned)(rng() % 3) : far[rng() % 7]; }   // now and then an out-of-range symbol, also next to 2^16 where index arithmetic wraps
 		bool ok = true; try { t.UpdateCodeCount(x); } catch (const std::exception&) { ok = false; }
 		json ev{{"e", "Upd"}, {"x", x}, {"ok", ok}, {"path", json::array()}, {"enc", json::array()}}; if (x < (unsigned)N) ev["enc"] = enc_of(t, x);
